@@ -28,14 +28,22 @@ End Generic.
 
 (* ---------- executable instance: Q, reduced after every operation ---------- *)
 Definition qdiv (a b:Q) : res Q := if Qeq_bool b 0 then Err ZeroDiv else Ok (Qred (a / b)).
-Definition oracle := list (bool*Q*Q).     (* (true,arg,exp arg) | (false,arg,ln arg); result 0#1 with flag handled by caller *)
-Fixpoint lookup (k:bool) (x:Q) (tbl:oracle) : res Q := match tbl with
+(* oracle table recorded from the implementation run: (kind, argument, result)
+   kind 0: exp ok   1: log ok   2: exp raised OverflowError   3: log raised ValueError on a
+   positive argument (float underflow)   4: log raised OverflowError (argument too large for a float) *)
+Definition oracle := list (nat*Q*Q).
+Fixpoint lookup (isexp:bool) (x:Q) (tbl:oracle) : res Q := match tbl with
   | [] => Err OracleMiss
-  | (k',a,r)::tl => if Bool.eqb k k' && Qeq_bool a x then Ok r else lookup k x tl end.
-(* an exp entry whose recorded result is negative encodes "math.exp raised OverflowError" *)
+  | (k,a,r)::tl =>
+      if Qeq_bool a x then
+        match k, isexp with
+        | 0%nat, true => Ok r | 2%nat, true => Err Overflow
+        | 1%nat, false => Ok r | 3%nat, false => Err ValueErr | 4%nat, false => Err Overflow
+        | _, _ => lookup isexp x tl end
+      else lookup isexp x tl end.
 Definition QNum (tbl:oracle) : Num Q := {|
   nofQ := fun q => q; nadd := fun a b => Qred (a+b); nsub := fun a b => Qred (a-b); nmul := fun a b => Qred (a*b);
   ndiv := qdiv; nleb := Qle_bool; nltb := fun a b => negb (Qle_bool b a); neqb := Qeq_bool;
-  nexp := fun x => match lookup true x tbl with Ok r => if Qle_bool 0 r then Ok r else Err Overflow | Err e => Err e end;
+  nexp := fun x => lookup true x tbl;
   nln := fun x => if Qle_bool x 0 then Err ValueErr else lookup false x tbl |}.
 Definition QNum0 : Num Q := QNum [].
